@@ -28,6 +28,7 @@ func checkC02(rep *Report, rng *Rng, tier string) {
 	if tier == "thorough" {
 		n = 4000
 	}
+	dmodelOn = true
 	modelOn = true
 	probeNonUTF8Name(rep)
 	rep.Rule = "seeded histories of mutations over 1-3 collections (4 comparators) with Flush at arbitrary positions, collection creation/removal, evictions, and re-opens after which the history continues on the re-opened store; after EVERY step a fresh Store is opened on a copy of the current file image and its full contents (names, keys, values, priorities, totals) are compared with the reference state of the last successful Flush; non-trivial = at least one flush and 8 ops"
@@ -36,6 +37,7 @@ func checkC02(rep *Report, rng *Rng, tier string) {
 		return d.RunCfg(), ops, d.String()
 	}, nil)
 	modelCompare(rep, "C02")
+	rep.Extra["steps_compared_with_byte_level_model_DStore"] = dmodelSteps
 }
 
 // ---------------------------------------------------------------- C04
@@ -495,7 +497,7 @@ func genC02(r *Rng, i int) (CfgDesc, []Op) {
 	g := GenCfg{FileBacked: true, NColls: 1 + r.Intn(3), NOps: 30 + r.Intn(70), CmpMode: r.Intn(2), Structural: true, CollMgmt: r.Chance(1, 2),
 		PrioMode: r.Intn(4), BigVals: r.Chance(1, 5), Invalid: r.Chance(1, 4), NKeys: 6 + r.Intn(30)}
 	ops := GenHistory(r, g)
-	d := CfgDesc{Check: "C02", FileBacked: true, CmpCB: g.CmpMode == 1, ReopenDump: true, DumpEvery: i%3 == 0}
+	d := CfgDesc{Check: "C02", FileBacked: true, CmpCB: g.CmpMode == 1, ReopenDump: true, DumpEvery: i%3 == 0, Digests: true}
 	return d, ops
 }
 
